@@ -302,6 +302,9 @@ fn generate_enum_declaration(id: &str, tags: &[ast::Tag], _width: usize) -> Stri
         unknown_handler.push(format!(r#"raise EnumValueError("", "", "{id}", v)"#));
     }
 
+    // Calling an enum class without members raises TypeError, not ValueError.
+    let lookup_error = if tag_decls.is_empty() { "(ValueError, TypeError)" } else { "ValueError" };
+
     format!(
         r#"
 class {enum_name}(enum.IntEnum):
@@ -311,7 +314,7 @@ class {enum_name}(enum.IntEnum):
     def from_int(v: int) -> Union[int, '{enum_name}']:
         try:
             return {enum_name}(v)
-        except ValueError:
+        except {lookup_error}:
 {unknown_handler}
 "#,
         enum_name = id,
